@@ -134,6 +134,10 @@ func OrderingExtras() []Val {
 	for _, q := range []qty{{"1", "Mg", "1 'Mg'"}, {"1", "ms", "1 'ms'"}, {"1", "m", "1 'm'"}, {"1", "Ms", "1 'Ms'"}, {"2", "m", "2 'm'"}, {"1", "mm", "1 'mm'"}, {"1", "mms", "1 'mms'"}} {
 		p = append(p, Val{ID: "q" + q.n + q.unit, Lit: q.lit, V: mustQty(q.n, q.unit), Kind: "Quantity", Class: "qty." + q.unit, RKind: "qty", RNum: ratOf(q.n), RStr: q.unit})
 	}
+	// decimals of 16 and 17 significant digits that differ in the last one (a double does not tell them apart)
+	for _, d := range []string{"1.0000000000000001", "1.0000000000000000", "9007199254740993.0", "9007199254740992.0", "0.30000000000000001", "0.30000000000000000", "0.1000000000000000055", "12345678901234567.8", "12345678901234567.9"} {
+		p = append(p, decVal(d))
+	}
 	// millisecond literals and the microsecond elements that denote the same millisecond (a System value keeps milliseconds)
 	for _, s := range []string{"2020-01-15T10:30:15.123Z", "2020-01-15T12:30:15.123+02:00", "2020-01-15T10:30:15.124Z"} {
 		p = append(p, Val{ID: "@" + s, Lit: "@" + s, V: mustDateTime(s), Kind: "DateTime", Class: "datetime.p6.ms3"})
